@@ -124,6 +124,7 @@ type c08wScen struct {
 	offStat   map[string]int
 	forbidden int
 	via       string
+	statsOff  bool
 }
 
 func (sc *c08wScen) fail(key, msg string) {
@@ -182,6 +183,30 @@ func (sc *c08wScen) addClient(n uint64, name string, ids []string, ignQ, ignS bo
 	sc.desc = append(sc.desc, fmt.Sprintf("add client %s %v ignore_querylog=%v ignore_statistics=%v -> %v", name, ids, ignQ, ignS, err == nil))
 }
 
+// runtime injects a runtime record (host name from rDNS) through the real storage.
+func (sc *c08wScen) runtime(a netip.Addr) {
+	globalContext.clients.storage.UpdateAddress(context.Background(), a, "rt-host.lan", nil)
+	sc.evs = append(sc.evs, vfApp("SRuntime", c08hAddr(a)))
+	sc.desc = append(sc.desc, fmt.Sprintf("runtime record (rDNS) for %v", a))
+	sc.cls["runtime-record"] = true
+}
+
+// setStatsConf: PUT /control/stats/config/update through the mux.
+func (sc *c08wScen) setStatsConf(enabled bool, rules []string) {
+	body, _ := json.Marshal(map[string]any{"enabled": enabled, "interval": 86400000, "ignored": rules})
+	sc.call(http.MethodPut, "/control/stats/config/update", string(body))
+	if enabled && sc.statsOff {
+		sc.cls["stats-reenabled-with-new-list"] = true
+	}
+	sc.statsOff = !enabled
+	if !enabled {
+		sc.cls["stats-disabled"] = true
+	}
+	sc.sRules = rules
+	sc.evs = append(sc.evs, vfApp("SStatsConf", vfBool(enabled), c08wBytesList(rules), c08wTable(rules)))
+	sc.desc = append(sc.desc, fmt.Sprintf("PUT stats/config/update enabled=%v ignored=%v", enabled, rules))
+}
+
 func (sc *c08wScen) query(spelled string, any bool, addr netip.Addr, cid string) {
 	qt := dns.TypeA
 	if any {
@@ -222,7 +247,7 @@ func (sc *c08wScen) query(spelled string, any bool, addr netip.Addr, cid string)
 		sc.cls["query-after-anon-switch-"+sc.via] = true
 	}
 	mayLog := !qe.Has(norm) && !(o != nil && o.IgnoreQueryLog)
-	mayCount := !se.Has(norm) && !(o != nil && o.IgnoreStatistics)
+	mayCount := !se.Has(norm) && !(o != nil && o.IgnoreStatistics) && !sc.statsOff
 	if !mayLog || !mayCount {
 		sc.forbidden++
 	}
@@ -449,9 +474,15 @@ func c08wScenario(t *testing.T, out *vfOut, base string, n int, anon, refuse boo
 	}
 
 	sc.readConf("") // the starting state is part of the case through [anon]
+	qRules0, sRules0 := sc.qRules, sc.sRules
 	script(sc)
 
 	// ---- the end: flush, the file, the statistics
+	if sc.statsOff {
+		sc.setStatsConf(true, []string{"Tracker.Example", "sub.ok.example"})
+		sc.query("sub.ok.example.", false, netip.MustParseAddr("10.0.0.7"), "")
+		sc.query("plain.test.", false, netip.MustParseAddr("10.0.0.7"), "")
+	}
 	sc.flush()
 	stored := map[string]int{}
 	var fileItems []string
@@ -523,8 +554,8 @@ func c08wScenario(t *testing.T, out *vfOut, base string, n int, anon, refuse boo
 	sort.Strings(clis)
 
 	sc.cls["wired-by-initdns"] = true
-	head := vfBool(anon) + " " + vfBool(refuse) + " " + c08wBytesList(c08wNames) + " " + c08wBytesList(sc.qRules) + " " + c08wTable(sc.qRules) +
-		" " + c08wBytesList(sc.sRules) + " " + c08wTable(sc.sRules)
+	head := vfBool(anon) + " " + vfBool(refuse) + " " + c08wBytesList(c08wNames) + " " + c08wBytesList(qRules0) + " " + c08wTable(qRules0) +
+		" " + c08wBytesList(sRules0) + " " + c08wTable(sRules0)
 	coq := "(CScen " + head + " " + vfList("bytes * bytes", nil) + " " + vfList("sev", sc.evs) + " " +
 		vfList("bytes * bytes * bytes", nil) + " " + vfList("bytes * bytes * bytes", fileItems) + " " +
 		vfList("bytes * N", doms) + " " + vfList("bytes * bytes * N", clis) + " " + vfN(resp.Num) + " " +
@@ -570,6 +601,16 @@ func c08wAll(t *testing.T, out *vfOut) {
 				registry(sc)
 				batch(sc)
 				sc.search()
+				// runtime records for addresses of ignored and of other clients
+				for _, a := range []string{"192.168.1.5", "192.168.77.1", "2001:db8::1234:5678", "10.0.0.7"} {
+					sc.runtime(ap(a))
+				}
+				batch(sc)
+				sc.search()
+				// statistics off, then on with another list in one request
+				sc.setStatsConf(false, sc.sRules)
+				batch(sc)
+				sc.setStatsConf(true, []string{"OK.Example"})
 				if via == "put" {
 					sc.setConf(!anon)
 				} else {
@@ -618,6 +659,12 @@ func c08wAll(t *testing.T, out *vfOut) {
 				case 3:
 					if r.Chance(1, 3) {
 						sc.flush()
+					} else if r.Bool() {
+						sc.runtime(ap(vfPick(r, addrs[:5])))
+					} else if sc.statsOff {
+						sc.setStatsConf(true, vfPick(r, [][]string{{"OK.Example"}, {"plain.test", "||ads.test^"}, {}}))
+					} else {
+						sc.setStatsConf(false, sc.sRules)
 					}
 				default:
 					sc.query(vfPick(r, names), r.Chance(1, 6), ap(vfPick(r, addrs)), vfPick(r, []string{"", "", "cli1", "cli2"}))
